@@ -20,6 +20,9 @@
 (*   "clearAtOpen"    thread / process tables cleared when a listing is REQUESTED (call time), filled at  *)
 (*                    its first next(): a request made but not yet read wipes what a listing in progress    *)
 (*                    learned, and is itself filled on top of what others wrote meanwhile                   *)
+(*   "namesOnObject"  thread names and global strings learned by a trace listing kept on the object and    *)
+(*                    handed to the next TracesParser: a record that is read BEFORE the record that names   *)
+(*                    its thread shows, in the second listing of the same dump, what the first one learned  *)
 (* Properties (Sessions_MC): a listing read without anything else happening in between equals the   *)
 (* atomic reference of Pipeline.tla whatever happened before (CleanIsAtomic); under any interleaving *)
 (* the selection / order / names of every listing still equal the reference (SelectionIsAtomic).    *)
@@ -47,7 +50,8 @@ IsTr(kind) == kind \in {"tr", "cs"}
 NewGen(so, kind, d, codes) ==
   LET obj == so.o
       fresh == SVariant # "tpReused" \/ so.tpcodes # codes
-      s0 == IF fresh THEN InitState
+      s0 == IF SVariant = "namesOnObject" THEN [InitState EXCEPT !.tname = so.tp.tname, !.gstr = so.tp.gstr]
+            ELSE IF fresh THEN InitState
             ELSE [so.tp EXCEPT !.open = InitState.open, !.gstr = EmptyFn, !.tname = EmptyFn]     \* reset() forgets nt / ex
   IN [kind |-> kind, d |-> d, codes |-> codes, cfg |-> CfgOf(obj),
       pre |-> IF IsTr(kind) THEN EffClass(obj) ELSE obj.fclass,
@@ -104,7 +108,8 @@ ScanTr(so, g, dump, tabs, s, i) ==
                ELSE ScanTr(so, g, dump, t2, r.s, i + 1)
 
 TrItem(dump, res) ==
-  [k |-> res.k, first |-> res.tr.win[1], proc |-> ProcCol(res.tabs.tpid, res.tabs.pname, EvByK(dump, res.tr.win[1]).tid)]
+  [k |-> res.k, first |-> res.tr.win[1], proc |-> ProcCol(res.tabs.tpid, res.tabs.pname, EvByK(dump, res.tr.win[1]).tid),
+   f |-> res.tr.f]                   \* the decoded fields = the text of the trace ("identical text")
 
 \* ---- Advance for the callstack listing: traces until one yields a callstack ------------------------
 RECURSIVE ScanCs(_, _, _, _, _, _, _)
@@ -186,7 +191,8 @@ AtomicOut(g, dump, tables) ==
   ELSE IF g.kind = "tr" THEN
     LET trs == RefTraces(obj, dump) IN
     [i \in 1..Len(trs) |-> [k |-> trs[i].k, first |-> trs[i].first,
-                            proc |-> ProcCol(trs[i].tpid, trs[i].pname, EvByK(dump, trs[i].first).tid)]]
+                            proc |-> ProcCol(trs[i].tpid, trs[i].pname, EvByK(dump, trs[i].first).tid),
+                            f |-> trs[i].out.f]]
   ELSE LET cs == CsFold(<<>>, RefTraces(obj, dump), 1).out IN
     [i \in 1..Len(cs) |-> [start |-> cs[i].cs.start, frames |-> cs[i].cs.frames]]
 
